@@ -263,10 +263,17 @@ def obligations(tier):
             for form in ["flat", "nested_col", "pairs"]:
                 obs.append(ob_adjoint(din, dout, r, form))
                 obs.append(ob_double_dual(din, dout, r, form))
+            if r >= 3:      # the single-row nested form [[K1, ..., Kr]] is a CP Kraus list only for r > 2 (two entries are a left/right pair)
+                obs.append(ob_adjoint(din, dout, r, "nested_row"))
+                obs.append(ob_double_dual(din, dout, r, "nested_row"))
             if 2 <= din * dout <= 9:   # a 1x1 "Choi matrix" is a scalar: permute_systems treats it as a vector (degenerate, not claimed)
                 obs.append(ob_adjoint(din, dout, r, "choi"))
                 obs.append(ob_adjoint(din, dout, r, "choi_pairs"))
                 obs.append(ob_double_dual(din, dout, r, "choi"))
+    if not T:
+        for din, dout in [(2, 2), (2, 3), (1, 2)]:
+            obs.append(ob_adjoint(din, dout, 3, "nested_row"))
+            obs.append(ob_double_dual(din, dout, 3, "nested_row"))
     for din, dout, din1, dout1 in [(2, 3, 3, 2), (2, 2, 3, 2), (3, 2, 2, 2), (2, 1, 1, 2), (1, 2, 2, 3)] + ([(2, 3, 4, 2)] if T else []):
         for r in [1, 2]:
             obs.append(ob_adjoint(din, dout, r, "pairs", din1, dout1))
